@@ -10,7 +10,7 @@ import PebblesVerif.Model.TypeURLMap
 * `declares S T f`;
 * one conflict predicate per kind in C05's statement (two services);
 * well-formedness facts every schema loaded by gqlparser has (`TypesNodup`, `FieldsNodup`,
-  `RootsAreObjects`, `UnionsSound`).
+  `RootsAreObjects`).
 Core Lean only.
 -/
 namespace PebblesVerif.SchemaUnion
@@ -29,13 +29,17 @@ inductive Item where
 def fieldItems (T : String) (f : FieldDef) : List Item :=
   .field T f.name f.type f.default :: f.args.map (fun a => .arg T f.name a.name a.type a.default)
 
-/-- the items one definition contributes (fields named `__…` aside) -/
+def hasFields (k : Kind) : Bool := k == .object || k == .interface || k == .inputObject
+def hasInterfaces (k : Kind) : Bool := k == .object || k == .interface
+
+/-- the items one definition contributes, by kind (fields named `__…` aside): a scalar has none
+    but itself, a union its members, an enum its values, the others fields (and interfaces) -/
 def defItems (d : TypeDef) : List Item :=
   .type d.name d.kind ::
-    ((d.fields.filter (fun f => !isBuiltinName f.name)).flatMap (fieldItems d.name)
-      ++ d.enumValues.map (fun e => .enumValue d.name e.name)
-      ++ d.members.map (fun m => .member d.name m)
-      ++ d.interfaces.map (fun i => .iface d.name i))
+    ((if hasFields d.kind then (d.fields.filter (fun f => !isBuiltinName f.name)).flatMap (fieldItems d.name) else [])
+      ++ (if d.kind == .enum then d.enumValues.map (fun e => .enumValue d.name e.name) else [])
+      ++ (if d.kind == .union then d.members.map (fun m => .member d.name m) else [])
+      ++ (if hasInterfaces d.kind then d.interfaces.map (fun i => .iface d.name i) else []))
 
 /-- the items of a type map -/
 def typesItems (ts : List TypeDef) : List Item := ts.flatMap defItems
@@ -43,14 +47,20 @@ def typesItems (ts : List TypeDef) : List Item := ts.flatMap defItems
 /-- `r` has everything `d` has -/
 def Covers (d r : TypeDef) : Prop := ∀ it ∈ defItems d, it ∈ defItems r
 
-/-- every input item (types named `__…` aside) is in the result, same signature -/
+/-- every input item (types named `__…` aside) is in the result, same signature; every
+    directive definition is in the result -/
 def Superset (inputs : List Schema) (R : Schema) : Prop :=
   (∀ S ∈ inputs, ∀ d ∈ S.types, isBuiltinName d.name = false → ∀ it ∈ defItems d, it ∈ typesItems R.types)
   ∧ (∀ S ∈ inputs, ∀ dd ∈ S.directives, dd ∈ R.directives)
 
-/-- every result item is an item of some input -/
+/-- `PossibleTypes[U]` of `S` lists `m` (how a "broken remote union" carries its members) -/
+def possibleDeclares (S : Schema) (U m : String) : Prop := ∃ e ∈ S.possible, e.1 = U ∧ m ∈ e.2
+
+/-- every result item is an item of some input (a union member may come from an input's
+    `PossibleTypes` of that union); every directive definition is some input's -/
 def NoInvention (inputs : List Schema) (R : Schema) : Prop :=
-  (∀ it ∈ typesItems R.types, ∃ S ∈ inputs, it ∈ typesItems S.types)
+  (∀ it ∈ typesItems R.types, (∃ S ∈ inputs, it ∈ typesItems S.types) ∨
+      (∃ U m, it = .member U m ∧ ∃ S ∈ inputs, possibleDeclares S U m))
   ∧ (∀ dd ∈ R.directives, ∃ S ∈ inputs, dd ∈ S.directives)
 
 /-- service schema `S` declares field `f` on type `T` -/
@@ -63,9 +73,6 @@ instance (S : Schema) (T f : String) : Decidable (declares S T f) := by unfold d
 def TypesNodup (S : Schema) : Prop := (S.types.map (·.name)).Nodup
 def FieldsNodup (S : Schema) : Prop := ∀ d ∈ S.types, (d.fields.map (·.name)).Nodup
 def RootsAreObjects (S : Schema) : Prop := ∀ d ∈ S.types, isRootName d.name = true → d.kind = .object
-/-- `PossibleTypes` of a union lists declared members only -/
-def UnionsSound (S : Schema) : Prop :=
-  ∀ d ∈ S.types, d.kind = .union → ∀ m ∈ S.possibleOf d.name, m ∈ d.members
 
 /-! ## the conflicts of C05's statement, between two services `A` and `B` -/
 
